@@ -25,6 +25,9 @@ instance (m : LinMod) (o : Nat) : Decidable (isEndMark m o) := by unfold isEndMa
 structure ModWF (m : LinMod) : Prop where
   fx : ∀ p ∈ m.pats, ∀ fx ∈ p, fx.WF
   rows : ∀ p ∈ m.pats, p ≠ []
+  /-- at most 256 rows per pattern: the scan's 512-row runaway guard (`row_count_total`, reset at the
+  bottom of every order) never fires -/
+  rowsLe : ∀ p ∈ m.pats, p.length ≤ 256
   spd : 1 ≤ m.spd
   bpm : 20 ≤ m.bpm
   len : m.len ≤ 256
@@ -90,7 +93,7 @@ def procValid (m : LinMod) (ep chain fuel ord : Nat) (st1 : ScanSt) : Outcome :=
     | .endMod st' row => .finished st' ord row
     | .done st' ord2 =>
       scanOrders m ep chain fuel (ord2.getD (ord + 1))
-        { st' with frameCount := st'.frameCount + st'.rowCount * st'.speed, rowCount := 0 }
+        { st' with frameCount := st'.frameCount + st'.rowCount * st'.speed, rowCount := 0, rowCountTotal := 0 }
 
 theorem scanOrders_skip (m : LinMod) (ep chain fuel nord : Nat) (st : ScanSt) (hs : isSkip m nord)
     (hosv : st.osv ≤ 512) :
